@@ -174,6 +174,32 @@ func TestVerifCtrlC(t *testing.T) {
 				}
 			})
 		}
+		// ... also when it lands inside a colour / cursor control sequence (Windows reader) or inside a
+		// tmux status string (junk reader)
+		for _, tok := range []string{"\x1b[25;119H", "\x1b[0m", "\x1bP=1s\x1b\\"} {
+			for ipos := 0; ipos <= len(p); ipos++ {
+				var withTok []byte
+				withTok = append(withTok, p[:ipos]...)
+				withTok = append(withTok, tok...)
+				withTok = append(withTok, p[ipos:]...)
+				for pos := ipos; pos <= ipos+len(tok); pos++ {
+					var s []byte
+					s = append(s, withTok[:pos]...)
+					s = append(s, 3)
+					s = append(s, withTok[pos:]...)
+					verifSegmentations(append(append([]byte{}, s...), '!', '\n'), func(chunks [][]byte) {
+						if _, err := verifFeed(chunks).readLineOnWindows(nil); err == nil {
+							t.Fatalf("windows reader: Ctrl-C at %d of %q (inside a control sequence) chunks %q not reported", pos, withTok, chunks)
+						}
+					})
+					verifSegmentations(append(append([]byte{}, s...), '\n'), func(chunks [][]byte) {
+						if _, err := verifFeed(chunks).readLine(true, nil); err == nil {
+							t.Fatalf("junk reader: Ctrl-C at %d of %q (inside a control sequence) chunks %q not reported", pos, withTok, chunks)
+						}
+					})
+				}
+			}
+		}
 	})
 }
 
